@@ -137,6 +137,60 @@ theorem prefix_old_window_only :
     (crashPts false conflictWitness).map recovers =
       [true, true, true, true, true, false, true, true, true, true] := by decide
 
+/-! ### Concurrent callers -/
+
+theorem proj_take_prefix (t : Nat) (h : List Req) (p : Nat) : proj t (h.take p) <+: proj t h := by
+  unfold proj
+  have h1 : h.take p <+: h := List.take_prefix p h
+  exact (h1.filter _).map _
+
+theorem proj_take_mono (t : Nat) (h : List Req) {a p : Nat} (hap : a ≤ p) :
+    proj t (h.take a) <+: proj t (h.take p) := by
+  have : h.take a = (h.take p).take a := by rw [List.take_take, Nat.min_eq_left hap]
+  rw [this]; exact proj_take_prefix t _ a
+
+/-- **C20 with concurrent callers.** Whatever the callers' programs and whatever order `h` the writer
+received their requests in, at every crash point reopening succeeds and the recovered data are the
+reference state of a linearisation `h.take p` of issued requests (`p ≤ issued`) which holds, for every
+caller `t`, a prefix of `t`'s program that contains all of `t`'s acknowledged requests; rejected requests
+contribute nothing (`specState`). -/
+theorem crash_recovers_concurrent (h : List Req) (hwf : ∀ r ∈ h, r.2.WF) :
+    ∀ pt ∈ crashPtsC h, ∃ p st, pt.acked ≤ p ∧ p ≤ pt.issued ∧ p ≤ h.length ∧
+      recover pt.disk = .ok st ∧ st.mem = specState Mem.empty (muts (h.take p)) ∧
+      ∀ t, proj t (h.take pt.acked) <+: proj t (h.take p) ∧ proj t (h.take p) <+: proj t h := by
+  intro pt hpt
+  have hwf' : ∀ mu ∈ muts h, mu.WF := by
+    intro mu hmu
+    obtain ⟨r, hr, rfl⟩ := List.mem_map.mp hmu
+    exact hwf r hr
+  obtain ⟨p, st, hap, hpi, hpl, hrec, hmem⟩ := crash_recovers (muts h) hwf' pt hpt
+  refine ⟨p, st, hap, hpi, by simpa [muts] using hpl, hrec, ?_, fun t => ⟨proj_take_mono t h hap, proj_take_prefix t h p⟩⟩
+  rw [hmem]; simp [muts, List.map_take]
+
+/-- executable corollary -/
+theorem crash_images_reopen_concurrent (h : List Req) (hwf : ∀ r ∈ h, r.2.WF) :
+    (crashPtsC h).all recovers = true := by
+  rw [List.all_eq_true]
+  intro pt hpt
+  obtain ⟨p, st, _, _, _, hst, _⟩ := crash_recovers_concurrent h hwf pt hpt
+  simp [recovers, hst]
+
+/-- the writer iteration of the code as it is: the rejection test reads the writer's own memory -/
+theorem stepSeen_current (s : Store) (n : Nat) (mu : Mutation) :
+    stepSeen s.mem s n mu = stepG true s n mu := by
+  unfold stepSeen stepG
+  cases check s.mem mu <;> simp
+
+/-- Regression: a rejection test evaluated on memory that is one applied request behind (two callers
+issue the same `PREFIX_APPEND`, both are tested before the writer applies the first) lets the duplicate
+into the log; the crash point after its `write(2)` leaves a log that `aof.New` rejects. -/
+theorem stale_check_violates :
+    let s1 := (submit Store.init conflictWitness[0]).1
+    (∃ pt ∈ (stepSeen Mem.empty s1 1 conflictWitness[0]).1, recovers pt = false ∧
+      pt.disk = { seg := some conflictWitness } ∧ pt.issued = 2 ∧ pt.acked = 1) ∧
+    ((stepSeen s1.mem s1 1 conflictWitness[0]).1).all recovers = true := by
+  refine ⟨⟨⟨{ seg := some conflictWitness }, 2, 1⟩, ?_, ?_, rfl, rfl, rfl⟩, ?_⟩ <;> decide
+
 /-! ### Non-vacuity -/
 
 example : (crashPts true conflictWitness).length = 6 := by decide
@@ -144,5 +198,11 @@ example : (crashPts true conflictWitness).all recovers = true := by decide
 example : ∀ mu ∈ exHist, mu.WF := by decide
 example : (crashPts true exHist).length = 18 ∧
     (crashPts true exHist).getLast? = some ⟨{ seg := some (runHist Store.init exHist).log }, 6, 6⟩ := by decide
+
+def concWitness : List Req :=
+  [(0, { type := tAppend, key := [1], value := [7] }), (1, { type := tAppend, key := [1], value := [7] }),
+   (1, { type := tPut, key := [2], value := [9] }), (0, { type := tRemove, key := [1], value := [7] })]
+example : ∀ r ∈ concWitness, r.2.WF := by decide
+example : (crashPtsC concWitness).length = 12 ∧ proj 1 concWitness = [concWitness[1].2, concWitness[2].2] := by decide
 
 end Specter.Aof
